@@ -9,7 +9,7 @@ from . import curvegen as CG
 from .common import call
 
 SELFTESTS = ["fields", "params", "scalar_mul"]
-DECIDING = ["B-pair.bilinear", "B-pair.additive", "B-pair.negation", "B-pair.order", "B-pair.infinity", "B-pair.offcurve", "M-pairing.observed"]
+DECIDING = ["B-pair.rep", "B-pair.bilinear", "B-pair.additive", "B-pair.negation", "B-pair.order", "B-pair.infinity", "B-pair.offcurve", "M-pairing.observed"]
 RULE = ("cases = identity instances evaluated on values RETURNED by the real `pairing` of each of the four implementations (a monitor wrapped "
         "around each pairing records every call and value); the FQ12 values are read as raw coefficient tuples and the identities are evaluated "
         "in pv.model GF(p^12) (own polynomial arithmetic with the module's modulus), so a defect in the library's own FQ12 ** or * cannot hide "
@@ -32,7 +32,7 @@ def required_classes(tier):
     out = []
     for mk in CG.MODKEYS:
         out += ["%s:%s" % (mk, c) for c in ("bilinear", "additive-P", "additive-Q", "negation", "order", "infinity", "offcurve", "offcurve-vs-infinity")]
-    out += ["opt:rescaled", "scalar:0", "scalar:r-1", "scalar:r+1", "scalar:random"]
+    out += ["opt.bn128:related-operands", "opt.bls12_381:related-operands", "opt.bn128:sparse-rescaling", "opt.bls12_381:sparse-rescaling", "opt:rescaled", "scalar:0", "scalar:r-1", "scalar:r+1", "scalar:random"]
     return out
 
 
@@ -141,6 +141,43 @@ def instance(rec, modkey, rng, heavy, base_cache):
                 a1, a2 = CG.to_lib(modkey, Qx, 2, rng), CG.to_lib(modkey, None, 1, rng, inf_rep=rep)
             st, v = call(pm.pairing, a1, a2)
             chk("B-pair.offcurve", st == "exc", "offcurve", "pairing accepted an off-curve argument (%s) because the other argument is infinity" % what, Q=Qx, P=Px)
+    # ---- representation independence on operands engineered to COLLIDE with earlier operands on part of their raw
+    #      representation (what a cache keyed too coarsely, or a shortcut testing one coefficient, would confuse)
+    if opt:
+        def raw(deg, X, Y, Zc):
+            cls_ = CG.field_classes(modkey)[deg]
+            return (CG.mk_el(cls_, X), CG.mk_el(cls_, Y), CG.mk_el(cls_, Zc))
+
+        def val(v):
+            try:
+                return tuple(c_ % S.p for c_ in conv.el(v))
+            except Exception:
+                return None
+        s_p = CG.rand_scale(S.F1, rng)
+        Xr, Yr = S.F1.mul(P0[0], s_p)[0], S.F1.mul(P0[1], s_p)[0]
+        q_obj = CG.to_lib(modkey, Q0, 2, rng, scale=CG.rand_scale(S.F2, rng))
+        st, first = call(pm.pairing, q_obj, raw(1, (Xr,), (Yr,), s_p))
+        others = [z for z in CG.same_xy_other_z(S.E1, Xr, Yr, rng) if z != s_p[0] and z != 0]
+        related = [("same-XY-other-Z", raw(1, (Xr,), (Yr,), (z,)), ((Xr * pow(z, -1, S.p) % S.p,), (Yr * pow(z, -1, S.p) % S.p,))) for z in others]
+        Pe = CG.endo(S.F1, P0)
+        related.append(("same-Y-other-X", raw(1, S.F1.mul(Pe[0], s_p), S.F1.mul(Pe[1], s_p), s_p), Pe))
+        Pn = S.E1.neg(P0)
+        related.append(("same-X-other-Y", raw(1, S.F1.mul(Pn[0], s_p), S.F1.mul(Pn[1], s_p), s_p), Pn))
+        for name, p_obj, aff in related:
+            if not S.E1.on_curve(aff):
+                continue
+            rec.case("%s:related-operands" % modkey, ("rel", modkey, name, aff), sample={"impl": modkey, "relation to the previous operand": name})
+            st1, v1 = call(pm.pairing, q_obj, p_obj)
+            st2, v2 = call(pm.pairing, CG.to_lib(modkey, Q0, 2, rng, scale=CG.rand_scale(S.F2, rng)), CG.to_lib(modkey, aff, 1, rng, scale=CG.rand_scale(S.F1, rng)))
+            chk("B-pair.rep", st1 == "ok" and st2 == "ok" and val(v1) == val(v2), "related-operands",
+                "pairing depends on the representative / on an earlier call: operand sharing raw coordinates with the previous one (%s)" % name, Q=Q0, P=aff)
+        # sparse rescalings of the G2 argument (a coefficient of a coordinate, or of its twisted image, vanishes)
+        shift = getattr(S, "shift", None)
+        scs = CG.sparse_scales(S.F2, Q0, shift)
+        for sc_ in (scs if heavy else scs[:4]):
+            rec.case("%s:sparse-rescaling" % modkey, ("sparse", modkey, sc_), sample={"impl": modkey, "scale of Q": sc_})
+            stx, vx = call(pm.pairing, CG.to_lib(modkey, Q0, 2, rng, scale=sc_), CG.to_lib(modkey, P0, 1, rng, scale=s_p))
+            chk("B-pair.rep", stx == "ok" and val(vx) == e0, "sparse-rescaling", "pairing changes under the projective rescaling %r of its G2 argument" % (sc_,), Q=Q0, P=P0)
     if not heavy:
         for cls in ("additive-P", "additive-Q", "negation"):
             rec.case("%s:%s" % (modkey, cls), None, nontrivial=False)
